@@ -107,6 +107,7 @@ func (a *Element) Prod(b, c ff.Element) ff.Element {
 			op, errors.InputIncompatible,
 			"Cannot set type %T to product of %v (%[1]T) and %v (%[2]T)", a, b, c,
 		)
+		return a
 	}
 
 	if tmp := checkErrAndCompatible(op, bb, cc); tmp != nil {
